@@ -245,6 +245,26 @@ def agg_guids(coll):
     return {str(x.guid) for x in list(coll.genes) + list(coll.feature_collections) + list(coll.variant_collections)}
 
 
+def scramble(v):
+    """edit an exported dictionary the way a caller deriving another annotation would: keys re-bound to other values
+    (identifiers blanked, strand flipped, coordinates and children replaced), nested dictionaries edited likewise.
+    Lists are replaced, not emptied in place: the library documents no copy semantics for the coordinate lists it
+    exports (on the unchanged tree they ARE the interval's own lists), so in-place list surgery is not held against it."""
+    if isinstance(v, dict):
+        for k in list(v):
+            w = v[k]
+            if isinstance(w, dict):
+                scramble(w)
+                v[k] = {}
+            elif isinstance(w, list):
+                for x in w:
+                    if isinstance(x, dict):
+                        scramble(x)
+                v[k] = []
+            else:
+                v[k] = "!edited" if isinstance(w, str) else (-7 if isinstance(w, (int, float)) and not isinstance(w, bool) else None)
+
+
 def replay(kind, obj, path, rnd, inherit=None):
     """returns steps = [action, status, contentSame, guidSame, equalToOriginal(, named deviation)]
     inherit: for a collection that is the answer of a query, the aggregate identifiers of the collection it was taken
@@ -271,6 +291,10 @@ def replay(kind, obj, path, rnd, inherit=None):
         before = canon(cur, form) if form != "PICKLE" else last_canon
         try:
             if a == "ToDict":
+                if rnd.random() < 0.5:
+                    # an exported dictionary belongs to the caller: wrecking it in place (a derived annotation is often
+                    # made by editing an export) must not reach the object nor its next export
+                    scramble(obj_dict(kind, cur))
                 nxt, nf = obj_dict(kind, cur), "DICT"
             elif a == "FromDict":
                 nxt = cls.from_dict(cur, par) if kind != "annotation" else cls.from_dict(cur)
